@@ -8,6 +8,7 @@ import (
 	"bytes"
 	"encoding/json"
 	"fmt"
+	"io"
 	"os"
 	"os/exec"
 	"path/filepath"
@@ -140,15 +141,34 @@ func runA(root, id string, args []string) int {
 	cmd.Dir = root
 	cmd.Env = env()
 	cmd.Stdout = os.Stdout
-	cmd.Stderr = os.Stderr
+	var errBuf tailBuffer
+	cmd.Stderr = io.MultiWriter(os.Stderr, &errBuf)
 	err := cmd.Run()
 	if err == nil {
 		return 0
 	}
+	code := 2
 	if ee, ok := err.(*exec.ExitError); ok {
-		return ee.ExitCode()
+		code = ee.ExitCode()
 	}
-	return 2
+	if code == 1 {
+		return 1
+	}
+	// The check process itself was aborted by the Go runtime (e.g. "fatal
+	// error: concurrent map read and map write") inside the code under
+	// test: engine-A checks call that code from several goroutines, which
+	// the unchanged tree supports. That is a finding about the repository,
+	// not a failure of the machinery.
+	if msg, site := runtimeAbort(errBuf.String()); msg != "" {
+		chk := report.New(id, "other")
+		fp := report.FPEscape("process-abort/" + msg + "@" + site)
+		chk.Report(fp, "the check process was aborted by the Go runtime inside the code under test ("+msg+" at "+site+") while its worker goroutines exercised it concurrently",
+			map[string]interface{}{"stderr_tail": errBuf.String()})
+		return chk.Finish(map[string]interface{}{
+			"explanation": "this run did not complete: the Go runtime aborted the check process inside repository code (" + msg + "); no coverage figures are available for it",
+		}, nil)
+	}
+	return code
 }
 
 // buildB rewrites the bus packages and the scenario packages from /repo's
@@ -260,6 +280,47 @@ func minimalOnly(vs []*explore.Violation) []*explore.Violation {
 		}
 	}
 	return out
+}
+
+// tailBuffer keeps the last 64 KiB written to it.
+type tailBuffer struct{ b []byte }
+
+func (t *tailBuffer) Write(p []byte) (int, error) {
+	t.b = append(t.b, p...)
+	if len(t.b) > 1<<16 {
+		t.b = t.b[len(t.b)-1<<16:]
+	}
+	return len(p), nil
+}
+
+func (t *tailBuffer) String() string { return string(t.b) }
+
+// runtimeAbort recognises a Go runtime fatal error whose running goroutine is
+// inside the repository and returns the message and the first repository frame.
+func runtimeAbort(stderr string) (string, string) {
+	i := strings.Index(stderr, "fatal error: ")
+	if i < 0 {
+		return "", ""
+	}
+	rest := stderr[i+len("fatal error: "):]
+	msg := rest
+	if j := strings.Index(rest, "\n"); j >= 0 {
+		msg = rest[:j]
+	}
+	// the first goroutine printed is the one that hit the error
+	for _, line := range strings.Split(rest, "\n") {
+		if strings.HasPrefix(line, "github.com/lugu/qiloop/") {
+			site := line
+			if k := strings.LastIndex(site, "("); k > 0 {
+				site = site[:k]
+			}
+			return strings.TrimSpace(msg), site
+		}
+		if strings.HasPrefix(line, "goroutine ") && strings.Contains(line, "[") && !strings.Contains(line, "running") && strings.Contains(rest[:strings.Index(rest, line)], "goroutine ") {
+			break
+		}
+	}
+	return "", ""
 }
 
 type scenInfo struct {
